@@ -81,6 +81,8 @@ def c15_streams(rng, tier, budget):
     base = st2.new("http://h/x/y")
     base2 = st2.new("http://h/x/y/")
     rel = st2.new("/x/y")
+    base3 = st2.new("http://h")
+    base4 = st2.new("http://h/")
     for seq in seqs:
         p = "/" + "/".join(seq)
         st2.obs_all(st2.new("http://h" + p), C15_OBS)
@@ -93,6 +95,8 @@ def c15_streams(rng, tier, budget):
             st2.obs_all(st2.mod(base, "joinpath", "F", *[enc(s) for s in seq]), C15_OBS)
             st2.obs_all(st2.mod(base2, "truediv", enc("/".join(seq))), C15_OBS)
             st2.obs_all(st2.mod(rel, "joinpath", "F", *[enc(s) for s in seq]), C15_OBS)
+            st2.obs_all(st2.mod(base3, "joinpath", "F", *[enc(s) for s in seq]), C15_OBS)          # empty base path: '..' climbs above the root
+            st2.obs_all(st2.mod(base4, "joinpath", "T", *[enc(s) for s in seq]), C15_OBS)
             r = st2.new("/".join(seq))
             st2.obs_all(st2.join(base, r), C15_OBS)
     for _ in range(int((100 if tier == "quick" else 1500) * budget)):
